@@ -9,6 +9,7 @@ import (
 	"runtime"
 	"sort"
 	"strings"
+	"sync/atomic"
 	"time"
 
 	"simrt"
@@ -23,6 +24,7 @@ type Case struct {
 	Cfg      []int            `json:"cfg,omitempty"`
 	Scale    int              `json:"scale,omitempty"`
 	Variant  int              `json:"variant,omitempty"` // non-period parameters scaled by variantFactor[Variant]
+	Pause    int              `json:"pause,omitempty"`   // seconds of simulated time the harness's consumers let pass before their 2nd, 5th and 11th receive
 	Lens     []int            `json:"lens,omitempty"`
 	Shape    int              `json:"shape,omitempty"`
 	DataSeed int64            `json:"data_seed,omitempty"`
@@ -95,6 +97,7 @@ type AssetSpec struct {
 	TgtAbsent bool   `json:"tgt_absent,omitempty"`
 	TgtEmpty  bool   `json:"tgt_empty_file,omitempty"` // file-system target: a zero-byte <name>.csv registers the asset
 	SrcAbsent bool   `json:"src_absent,omitempty"`
+	SrcSwap   int    `json:"src_swap,omitempty"` // k > 0: source snapshots k-1 and k change places (a late correction; the last one stays last)
 	Seed      int64  `json:"seed"`
 }
 
@@ -321,6 +324,9 @@ func workerMain() int {
 		c := ck.Gen(rng, tier, k+worker*1000003+round*7)
 		c.Prop = prop
 		c.Seed = seed
+		if pausable[prop] && rng.Intn(12) == 0 {
+			c.Pause = []int{7, 61, 3600}[rng.Intn(3)] // a slow consumer: nothing in the library may depend on how soon a value is taken
+		}
 		if os.Getenv("VDEBUG") != "" {
 			b, _ := json.Marshal(c)
 			fmt.Fprintf(os.Stderr, "case %d: %s\n", k, b)
@@ -333,7 +339,7 @@ func workerMain() int {
 		st.Evaluations++
 		st.Entities[c.Entity]++
 		st.digest = uint64(seed)
-		vs := ck.Run(c, st)
+		vs := runCase(ck, c, st)
 		if digestMode {
 			for _, v := range vs {
 				st.digest = splitmix(st.digest ^ hashString(v.Key()+v.Detail))
@@ -393,7 +399,7 @@ func reportViolation(ck Check, c *Case, v Violation, dir string, st *Stats) Viol
 	scratch := newStats()
 	deadline := time.Now().Add(20 * time.Second)
 	same := func(cand *Case) (Violation, bool) {
-		for _, w := range ck.Run(cand, scratch) {
+		for _, w := range runCase(ck, cand, scratch) {
 			if w.Key() == v.Key() {
 				return w, true
 			}
@@ -413,6 +419,13 @@ func reportViolation(ck Check, c *Case, v Violation, dir string, st *Stats) Viol
 				cur, curV, improved = cand, w, true
 				break
 			}
+		}
+	}
+	if cur.Pause > 0 {
+		cand := *cur
+		cand.Pause = 0
+		if w, ok := same(&cand); ok {
+			cur, curV = &cand, w
 		}
 	}
 	// schedule shrinking: is the canonical schedule enough?
@@ -511,7 +524,7 @@ func replayMain() int {
 		return historyReplayMain(&rf, path)
 	}
 	st := newStats()
-	vs := ck.Run(rf.Case, st)
+	vs := runCase(ck, rf.Case, st)
 	for _, v := range vs {
 		if v.Key() == rf.Violation.Key() {
 			fmt.Printf("REPRODUCED %s: %s\n", v.Key(), v.Detail)
@@ -544,4 +557,36 @@ func envInt(k string, d int) int {
 		}
 	}
 	return d
+}
+
+// pausable: the checks whose consumers may be slow on the simulated clock (C12 and C13 have
+// oracles stated in simulated time and dates).
+var pausable = map[string]bool{"C02": true, "C03": true, "C04": true, "C05": true, "C09": true, "C10": true, "C11": true, "C14": true, "C16": true, "C19": true}
+
+var (
+	consPause time.Duration
+	consCount atomic.Int64
+)
+
+// runCase runs one case with its consumer pacing installed.
+func runCase(ck Check, c *Case, st *Stats) []Violation {
+	consPause = time.Duration(c.Pause) * time.Second
+	consCount.Store(0)
+	defer func() { consPause = 0 }()
+	if c.Pause > 0 {
+		st.Faults["slow-consumer(simulated-seconds-between-receives)"]++
+	}
+	return ck.Run(c, st)
+}
+
+// consYield is the scheduling point before a consumer's receive; a slow consumer lets simulated
+// time pass first (library timers that fall due fire meanwhile).
+func consYield() {
+	if consPause > 0 {
+		switch consCount.Add(1) {
+		case 2, 5, 11:
+			simrt.Sleep(-30, consPause)
+		}
+	}
+	simrt.Yield(-1, "cons-recv")
 }
